@@ -28,3 +28,8 @@ def run(rep, tier, seed):
     rep.assume("an event time equal to a grid time has probability 0; such runs are discarded")
     rep.rule("%d random event models x 4 gridded runs (list / tuple / array grids, uniform and non-uniform, grids "
              "extending past the end of the dynamics, exact and tau-leap)" % n)
+
+
+def selftest(seed):
+    from checks import selftest as st
+    return st.run([st.jump])
